@@ -106,6 +106,21 @@ func (o dumpOptions) Clone() dump.Options {
 	return dumpOptions{o.DumpOptions.Clone()}
 }
 
+// requestDumpOptions are the options of a request-level dumper (Request.EnableDump).
+// Nobody runs Dumper.Start for such a dumper, so nothing would ever drain its
+// queue: it always writes synchronously, whatever DumpOptions.Async says.
+type requestDumpOptions struct {
+	dumpOptions
+}
+
+func (o requestDumpOptions) Async() bool {
+	return false
+}
+
+func (o requestDumpOptions) Clone() dump.Options {
+	return requestDumpOptions{dumpOptions{o.DumpOptions.Clone()}}
+}
+
 func newDefaultDumpOptions() *DumpOptions {
 	return &DumpOptions{
 		Output:         os.Stdout,
@@ -124,4 +139,14 @@ func newDumper(opt *DumpOptions) *dump.Dumper {
 		opt.Output = os.Stderr
 	}
 	return dump.NewDumper(dumpOptions{opt})
+}
+
+func newRequestDumper(opt *DumpOptions) *dump.Dumper {
+	if opt == nil {
+		opt = newDefaultDumpOptions()
+	}
+	if opt.Output == nil {
+		opt.Output = os.Stderr
+	}
+	return dump.NewDumper(requestDumpOptions{dumpOptions{opt}})
 }
